@@ -441,7 +441,7 @@ Definition key_dispatch : parser bytes :=
   else unquoted_key.
 
 Lemma simple_key_unfold i :
-  simple_key i = pmap (fun '(k, sp) => (raw_with_span sp, k)) (with_span key_dispatch) i.
+  simple_key i = pmap (fun '(k, sp) => (raw_with_span sp, k)) (with_span (context key_dispatch)) i.
 Proof. reflexivity. Qed.
 
 Lemma key_dispatch_sound i k i' : key_dispatch i = Ok k i' -> exists t, simple_key_tok t k /\ splits i t i'.
@@ -482,7 +482,7 @@ Theorem simple_key_sound i rw k i' : simple_key i = Ok (rw, k) i' ->
 Proof.
   rewrite simple_key_unfold. intro H. apply pmap_inv in H as ([k0 sp] & H & E).
   apply with_span_inv in H as (a & H & E2). injection E2 as <- <-. injection E as -> ->.
-  apply key_dispatch_sound in H as (t & Ht & S). eauto.
+  apply context_inv in H. apply key_dispatch_sound in H as (t & Ht & S). eauto.
 Qed.
 
 Theorem simple_key_complete i t k r : simple_key_tok t k -> rest i = t ++ r ->
@@ -490,5 +490,5 @@ Theorem simple_key_complete i t k r : simple_key_tok t k -> rest i = t ++ r ->
   simple_key i = Ok (raw_with_span (pos i, (pos i + N.of_nat (length t))%N), k) (adv t i).
 Proof.
   intros Ht H Hr. rewrite simple_key_unfold.
-  rewrite (pmap_ok _ _ _ _ _ (with_span_ok _ _ _ _ (key_dispatch_complete i t k r Ht H Hr))). reflexivity.
+  rewrite (pmap_ok _ _ _ _ _ (with_span_ok _ _ _ _ (context_ok _ _ _ _ (key_dispatch_complete i t k r Ht H Hr)))). reflexivity.
 Qed.
